@@ -863,21 +863,31 @@ func undeprecateSlice(ids []string, deprecations map[string][]string) []string {
 	return newIDs
 }
 
-// undeprecateMap transforms the given map of IDs to values so that any
+// undeprecateMap transforms the given map of IDs to paths so that any
 // deprecated IDs are replaced with their replacements per the given
 // deprecations. When there is more than one replacement, all entries
-// for the replacements will have the same value.
-func undeprecateMap[T any](idMap map[string]T, deprecations map[string][]string) map[string]T {
-	newIDs := make(map[string]T, len(idMap))
-	for id, val := range idMap {
+// for the replacements will have the paths. When several IDs have the
+// same replacement, the entry for the replacement has the paths of all
+// of them.
+func undeprecateMap(idMap map[string][]string, deprecations map[string][]string) map[string][]string {
+	newIDs := make(map[string][]string, len(idMap))
+	for id, paths := range idMap {
 		replacements, ok := deprecations[id]
-		if ok {
-			for _, replacement := range replacements {
-				newIDs[replacement] = val
-			}
-		} else {
-			newIDs[id] = val
+		if !ok {
+			replacements = []string{id}
 		}
+		for _, replacement := range replacements {
+			newIDs[replacement] = append(newIDs[replacement], paths...)
+		}
+	}
+	for id, paths := range newIDs {
+		// A check config does not accept a path together with a path that contains it.
+		paths = slicesext.ToUniqueSorted(paths)
+		newIDs[id] = slicesext.Filter(paths, func(path string) bool {
+			return !slices.ContainsFunc(paths, func(other string) bool {
+				return other != path && normalpath.EqualsOrContainsPath(other, path, normalpath.Relative)
+			})
+		})
 	}
 	return newIDs
 }
